@@ -250,3 +250,43 @@ fn('linear._Linear._vectorized_predict_context', props='C02 C08 C09 C10',
             '[C10,readonly] ' + forall_arms(' and '.join('%s == old(%s)' % (MV(f), MV(f))
                                                          for f in ('A', 'A_inv', 'Xty', 'beta', 'scaler', 'l2_lambda', 'alpha',
                                                                    'scale', '#rng_shared')))])
+
+from specs.base_mab import ADD_REQ, REM_REQ, WS_PARAMS, WS_REQ, MAPPING     # noqa
+MODEL_COLS = ('A', 'A_inv', 'Xty', 'beta', 'scaler', 'l2_lambda', 'alpha', 'scale', '#rng_shared', '#rng_state')
+SAME_MODEL = ' and '.join('%s == old(%s)' % (MV(f), MV(f)) for f in MODEL_COLS)
+NEW_MODEL = ('(is_none(self.num_features) or (%s == smul(self.l2_lambda, ident(self.num_features)) and '
+             '%s == zeros(self.num_features) and %s == zeros(self.num_features)))' % (MV('A', 'arm'), MV('Xty', 'arm'), MV('beta', 'arm')))
+LIN_MODS = ['self.arm_to_model{}', 'self.arm_to_expectation{}', 'self.arm_to_status{}']
+fn('base_mab.BaseMAB.add_arm', cls='_Linear', props='C02 C08', params={'arm': 'arm', 'binarizer': 'opt:callable'},
+   requires=ADD_REQ, modifies=LIN_MODS,
+   ensures=['INV',
+            # C02: an arm added after fit starts from the initial model (zero coefficients); it draws from the bandit's generator
+            '[C02,neutral] %s and %s and ' % (NEW_MODEL, MV('#rng_shared', 'arm')) + status_fresh('arm'),
+            '[C02,others] forall_arm(lambda a: implies(old(inkeys(self.arm_to_expectation, a)), %s))' % SAME_MODEL])
+fn('base_mab.BaseMAB.remove_arm', cls='_Linear', props='C02 C08', params={'arm': 'arm'},
+   requires=REM_REQ, modifies=LIN_MODS,
+   ensures=['INV', '[C02,others] forall_arm(lambda a: implies(inkeys(self.arm_to_expectation, a), %s))' % SAME_MODEL])
+
+COPIED = ('A', 'A_inv', 'Xty', 'beta', 'scaler', 'l2_lambda', 'alpha', 'scale')
+fn('linear._Linear._copy_arms', props='C13',
+   params={'cold_arm_to_warm_arm': 'map:arm'},
+   requires=['INV.keys', 'INV.arms', 'distinct(keys(cold_arm_to_warm_arm))',
+             'forall_arm(lambda c: implies(inkeys(cold_arm_to_warm_arm, c), mem(self.arms, c) and '
+             'mem(self.arms, val(cold_arm_to_warm_arm, c)) and not inkeys(cold_arm_to_warm_arm, val(cold_arm_to_warm_arm, c))))'],
+   modifies=['self.arm_to_model[*]'],
+   ensures=['[C13,copied] forall_arm(lambda c: implies(inkeys(cold_arm_to_warm_arm, c), %s))'
+            % ' and '.join('%s == old(%s)' % (MV(f, 'c'), MV(f, 'val(cold_arm_to_warm_arm, c)')) for f in COPIED),
+            '[C13,untouched] forall_arm(lambda a: implies(mem(self.arms, a) and not inkeys(cold_arm_to_warm_arm, a), %s))'
+            % SAME_MODEL])
+fn('base_mab.BaseMAB._warm_start', cls='_Linear', props='C13', params=WS_PARAMS,
+   requires=WS_REQ + ['INV', 'slen(self.arms) > 0'], raises=['ValueError'],
+   modifies=['self.arm_to_model[*]', 'self.arm_to_status[*]'],
+   ensures=['INV',
+            '[C13,status] forall_arm(lambda a: implies(mem(self.arms, a), '
+            'val(self.arm_to_status, a, "is_warm") == (old(val(self.arm_to_status, a, "is_warm")) or inkeys(%s, a)) and '
+            'val(self.arm_to_status, a, "is_trained") == old(val(self.arm_to_status, a, "is_trained")) and '
+            'val(self.arm_to_status, a, "warm_started_by") == (some(val(%s, a)) if inkeys(%s, a) else '
+            'old(val(self.arm_to_status, a, "warm_started_by")))))' % (MAPPING, MAPPING, MAPPING),
+            '[C13,copied] forall_arm(lambda c: implies(inkeys(%s, c), %s))'
+            % (MAPPING, ' and '.join('%s == old(%s)' % (MV(f, 'c'), MV(f, 'val(%s, c)' % MAPPING)) for f in COPIED)),
+            '[C13,untouched] forall_arm(lambda a: implies(mem(self.arms, a) and not inkeys(%s, a), %s))' % (MAPPING, SAME_MODEL)])
